@@ -309,4 +309,5 @@ func cacheFamilies(t *testing.T) {
 		}
 		c.Evals(b)
 	})
+	kit.Run(t, "C16", "cache-conctake", kit.N(80, 1600), concTakeCase)
 }
